@@ -133,7 +133,9 @@ def random_op(rng):
         nl = rng.sample(PFX, rng.choice([1, 1, 2, 3]))
         if x < 0.55:
             # now and then prefixes announced without any path attribute (a peer can send that; the REST side refuses it)
-            op.update(nlri=nl, attr=rng.choice(ATTRS) if rng.random() < 0.85 else {})
+            # or with an attribute value the agent cannot encode (send side: 'failed when send this message out')
+            r_ = rng.random()
+            op.update(nlri=nl, attr=rng.choice(ATTRS) if r_ < 0.8 else {} if r_ < 0.9 else {**rng.choice(ATTRS), 8: ['NO-SUCH-COMMUNITY']})
         elif x < 0.85:
             op.update(withdraw=nl)
         elif x < 0.95:
@@ -214,15 +216,19 @@ class Runner(object):
         other = 'send' if self.side == 'recv' else 'recv'
         self.model = self.models[self.side]
         self.ver = self.vers[self.side]
+        refused = False
         if self.side == 'recv':
+            if (op.get('attr') or {}).get(8) == ['NO-SUCH-COMMUNITY']:
+                op = dict(op, attr={**op['attr'], 8: ['NO_EXPORT']})      # a peer cannot send a community without a value
             w.deliver(encode(op), self.tr)
         else:
             code, body = w.rest('POST', 'send/update', json_body=rest_post(op))
             if not (code == 200 and body and body.get('status') is True):
+                # nothing was sent: neither the table nor a counter may move (the model is not advanced)
                 self.stats['send_refused'] += 1
-                return
+                refused = True
         self.stats['steps'] += 1
-        changed = self.model.apply(op)
+        changed = self.model.apply(op) if not refused else set()
         pr = w.fsm.protocol
         ver = self.versions()
         fam = op['kind']
